@@ -139,7 +139,11 @@ impl LinkInfo {
             + external_link_state.last_offset_uncertainty * config.select_offset_uncertainty_window
             + (delay + external_link_state.root_delay) * config.select_delay_uncertainty_window;
 
-        if half_window_size < config.select_max_window_size {
+        // A negative (or NaN) half window can result from a negative delay estimate, e.g. when
+        // the two halves of a round trip were taken while the local clock ran fast. Such a window
+        // has its end before its start, which the consensus search cannot handle, so the link
+        // is treated as unsuitable until its estimates make sense again.
+        if (0.0..config.select_max_window_size).contains(&half_window_size) {
             Some(OffsetWindow {
                 low: avg_offset - internal_offset - half_window_size,
                 high: avg_offset - internal_offset + half_window_size,
